@@ -20,7 +20,7 @@ func init() {
 			"Oracle: an explicit depth-counting tree walk written in the harness (object members form an unordered group). Non-trivial: the document is a container; distinct by (tree, path)",
 		Run:          runC15,
 		Replay:       replayC15,
-		MinExercised: map[string]int64{"anykey": 500, "anyarray": 500, "anylevel": 20000, "anylevel.last": 2000, "equiv.unbounded": 500, "anylevel.chain": 5000, "anylevel.aliased": 2000, "equiv.kfold": 2000, "strict.skip": 5000, "exists": 5000},
+		MinExercised: map[string]int64{"anykey": 500, "anyarray": 500, "anylevel": 20000, "anylevel.last": 2000, "equiv.unbounded": 500, "anylevel.chain": 5000, "anylevel.aliased": 2000, "equiv.kfold": 2000, "strict.skip": 5000, "exists": 5000, "wild.chain": 5000, "preorder.exists": 3000},
 		Assumptions:  []string{"object member order is open: results are compared as sequences in which the members of one object may appear in any order (all orders enumerated for objects of <= 3 members)"},
 	})
 }
@@ -884,11 +884,78 @@ func checkAliased(c *h.Ctx, docText string, lax bool) {
 
 var c15ChainSpecs = []string{".**", ".**{1}", ".**{2}", ".**{3}", ".**{1 to 2}", ".**{2 to 3}", ".**{2 to last}", ".**{last}", ".*", "[*]", ".**{0 to 1}"}
 
+// checkPreorderExists: Exists over a recursive descent with a continuation
+// against the node-by-node evaluation in document order.
+func checkPreorderExists(c *h.Ctx, spec, cont, docText string, useNum bool) {
+	pn, pc, pf := cachedPath("$"+spec), cachedPath("$"+cont), cachedPath("$"+spec+cont)
+	if pn == nil || pc == nil || pf == nil {
+		c.Count("gen.unparsable", 1)
+		return
+	}
+	doc := h.Decode(docText, useNum)
+	nodes := h.Call("query", pn, doc, h.Opts{})
+	c.Eval(1)
+	if nodes.Class != h.OK {
+		return
+	}
+	want := "false"
+	for _, x := range nodes.Items {
+		ox := h.Call("exists", pc, x, h.Opts{})
+		c.Eval(1)
+		if ox.Class == h.Panic || ox.Class == h.Invalid {
+			want = ""
+			break
+		}
+		if ox.Class != h.OK {
+			want = ox.Class + ": " + ox.ErrText()
+			break
+		}
+		if ox.Bool {
+			want = "true"
+			break
+		}
+	}
+	if want == "" {
+		c.Skip("preorder.exists", "panic-or-invalid-is-C05")
+		return
+	}
+	og := h.Call("exists", pf, doc, h.Opts{})
+	c.Eval(1)
+	got := og.Class + ": " + og.ErrText()
+	if og.Class == h.OK {
+		got = fmt.Sprint(og.Bool)
+	}
+	if og.Class == h.Panic {
+		return
+	}
+	c.Distinct("preorder", spec, cont, docText)
+	if got != want {
+		c.Violate("preorder.exists", h.F("spec", spec), fmt.Sprintf("Exists($%s%s) on %s = %s; node by node in document order (nodes %s) the first to decide gives %s", spec, cont, docText, og.Summary(), h.CanonList(nodes.Items), want), h.Case{Kind: "preorder", Path: "$" + spec + cont, Doc: docText, UseNum: useNum, Entry: "exists", Extra: map[string]string{"spec": spec, "cont": cont}})
+	} else {
+		c.Held("preorder.exists")
+	}
+}
+
 func replayC15(c *h.Ctx, cs h.Case) {
 	c15UseNum = cs.UseNum
 	if cs.Kind == "deep" {
 		c.Note("replay: deep chains are rebuilt by the run itself: ./check C15 quick (deterministic section)")
 		runC15(c)
+		return
+	}
+	if cs.Kind == "preorder" {
+		checkPreorderExists(c, cs.Extra["spec"], cs.Extra["cont"], cs.Doc, cs.UseNum)
+		return
+	}
+	if cs.Kind == "exec" {
+		if ec, err := CaseFrom(cs); err == nil {
+			o := h.Call("query", ec.P, ec.DocValue(), ec.Opts())
+			if verdict, feat, detail := modelVerdict(ec, o); verdict == "violated" {
+				c.Violate("wild.chain", feat, detail, cs)
+			} else {
+				c.Note("replay: " + verdict + " " + o.Summary())
+			}
+		}
 		return
 	}
 	if cs.Kind == "alias" {
@@ -970,6 +1037,93 @@ func runC15(c *h.Ctx) {
 	for i := 0; i < n; i++ {
 		c15UseNum = i%2 == 1
 		checkTree(c, gen.Doc(r, dc), specs, true)
+	}
+	// wildcards one after the other ([*] then .*, .* then [*], twice the same,
+	// with a member accessor or a level in between): each hands every node it
+	// selects to the next, which in lax mode unwraps an array it is handed -
+	// against the reference model, all items and only whether there is one
+	{
+		rw := c.Rand("c15-wildchain")
+		wdc := gen.DocCfg{Depth: 4, MaxKids: 3, Keys: []string{"a", "b"}, Strs: []string{"s"}, Nums: []string{"1", "2", "0"}}
+		steps := []string{"[*]", ".*", ".a", ".**{1}", "[*]", ".*", ".**{1 to 2}", ".b"}
+		directed := []string{`[[{"a":1}],{"b":2}]`, `{"k":[[{"a":1}]]}`, `[[{"a":1}]]`, `[[[1,2]],[3]]`, `{"a":[[1],[[2]]],"b":{"a":[3]}}`, `[[],[[]],[{"a":[]}]]`}
+		nw := c.PerShard(c.N(40000, 600000))
+		for i := 0; i < nw; i++ {
+			var docText string
+			if i%8 == 0 {
+				docText = directed[i/8%len(directed)]
+			} else {
+				docText = gen.Doc(rw, wdc)
+			}
+			k := 2 + rw.IntN(2)
+			ptxt := "$"
+			for j := 0; j < k; j++ {
+				ptxt += steps[rw.IntN(len(steps))]
+			}
+			if rw.IntN(3) == 0 {
+				ptxt = "strict " + ptxt
+			}
+			ec, err := CaseFrom(h.Case{Path: ptxt, Doc: docText, UseNum: i%2 == 1, Silent: i%5 == 0})
+			if err != nil {
+				c.Count("gen.unparsable", 1)
+				continue
+			}
+			ec.Spare = i%4 < 2
+			o := h.Call("query", ec.P, ec.DocValue(), ec.Opts())
+			c.Eval(1)
+			verdict, feat, detail := modelVerdict(ec, o)
+			switch {
+			case verdict == "held":
+				c.Held("wild.chain")
+				if len(o.Items) > 0 {
+					c.Distinct(ptxt, docText)
+				}
+				if o.Class == h.OK && !ec.Silent {
+					oe := h.Call("exists", ec.P, ec.DocValue(), ec.Opts())
+					c.Eval(1)
+					if oe.Class != h.Panic && (oe.Class != h.OK || oe.Bool != (len(o.Items) > 0)) {
+						c.Violate("wild.chain", h.F("entry", "exists", "mode", modeName(!strings.HasPrefix(ptxt, "strict "))), fmt.Sprintf("Query(%s) on %s = %s but Exists = %s", ptxt, docText, o.Summary(), oe.Summary()), ec.Case())
+					}
+				}
+			case strings.HasPrefix(verdict, "skip:"):
+				c.Skip("wild.chain", strings.TrimPrefix(verdict, "skip:"))
+			case feat["cause"] != "" && feat["cause"] != "unexplained":
+				// a recorded finding of another property (known-findings.txt), met on the way
+				c.Skip("wild.chain", "recorded-finding:"+feat["cause"])
+			default:
+				if feat == nil {
+					feat = map[string]string{}
+				}
+				feat["mode"] = modeName(!strings.HasPrefix(ptxt, "strict "))
+				c.Violate("wild.chain", feat, detail, ec.Case())
+			}
+		}
+	}
+	// asked only whether there is an item, the descent still goes node by node
+	// in document order: what decides is the first node whose continuation
+	// yields an item or fails, whichever comes first (objects of one member,
+	// so that there is one order)
+	{
+		rp := c.Rand("c15-preorder")
+		pdc := gen.DocCfg{Depth: 4, MaxKids: 3, MaxMembers: 1, Keys: []string{"k"}, Strs: []string{"s", "5"}, Nums: []string{"1", "2.5"}}
+		pdirected := []string{`[{"k":true},1]`, `[[["x"]],2]`, `{"k":[{"k":"s"},3]}`, `[1,{"k":true}]`, `[[1],[true]]`, `[{"k":[null]},"5",{"k":false}]`, `[[[true]],[1]]`, `[{"k":{"k":"s"}},2]`}
+		pspecs := []string{".**", ".**{1 to last}", ".**{0 to 2}", ".**{2 to last}", ".**{1 to 3}", ".**{1}"}
+		pconts := []string{".double()", ".integer()", ` ? (@.type() != "array" && @.type() != "object").double()`, ".abs()", ".ceiling()", ` ? (@.type() == "number" || @.type() == "boolean").double()`, ".k.double()"}
+		np := c.PerShard(c.N(30000, 400000))
+		for i := 0; i < np; i++ {
+			var docText string
+			if i%4 == 0 {
+				docText = pdirected[i/4%len(pdirected)]
+			} else {
+				docText = gen.Doc(rp, pdc)
+				if i%4 == 1 {
+					// booleans among the leaves: no numeric method takes them
+					docText = strings.Replace(docText, `"s"`, "true", 2)
+				}
+			}
+			spec, cont := pspecs[rp.IntN(len(pspecs))], pconts[rp.IntN(len(pconts))]
+			checkPreorderExists(c, spec, cont, docText, i%2 == 1)
+		}
 	}
 	// chains nested far deeper than any decoder limit (documents built as Go
 	// values): every level is a node
